@@ -35,6 +35,15 @@ def c18 (op : String) (a : Array Json) : R (Option Json) := do
     let rows ← jNat (← arg a 1); let cols ← jNat (← arg a 2); let dn ← jNat (← arg a 3); let n ← jNat (← arg a 4)
     let sh ← jOpt (jList jInt) (← arg a 5)
     pure (some (exceptJ (listJ natJ) (Validate.cooCtor rows cols dn n sh)))
+  | "v_gcxs_ctor" =>
+    -- [op, data ndim, len(data), indices, indptr, shape|null, compressed_axes|null]
+    let dn ← jNat (← arg a 1); let n ← jNat (← arg a 2); let ind ← jList jInt (← arg a 3); let ptr ← jList jInt (← arg a 4)
+    let sh ← jOpt (jList jInt) (← arg a 5); let c ← jOpt (jList jInt) (← arg a 6)
+    pure (some (exceptJ unitJ (Validate.gcxsCtor dn n ind ptr sh c)))
+  | "gcxs_contract" =>
+    let n ← jNat (← arg a 1); let ind ← jList jInt (← arg a 2); let ptr ← jList jInt (← arg a 3)
+    let sh ← jList jInt (← arg a 4); let c ← jOpt (jList jInt) (← arg a 5)
+    pure (some (okJ (Json.bool (decide (Validate.gcxsContract n ind ptr sh c)))))
   | "v_caxes" =>
     let nd ← jNat (← arg a 1); let c ← jOpt (jList jInt) (← arg a 2)
     pure (some (exceptJ unitJ (Validate.checkCompressedAxes nd c)))
